@@ -69,7 +69,7 @@ func Run(ctx *core.Ctx) {
 
 	// seeded random bundles until the budget of fault points is used
 	target := ctx.Pick(40000, 1000000)
-	m3n := ctx.Pick(120, 1500)
+	m3n := ctx.Pick(120, 4000)
 	rng := rand.New(rand.NewSource(ctx.Seed))
 	gi := 0
 	for e.pointsOf["proggen"] < target && gi < 200000 {
@@ -96,7 +96,7 @@ func Run(ctx *core.Ctx) {
 	}
 	var pg []*Unit
 	for _, u := range e.units {
-		if u.Family == "proggen" && len(pg) < ctx.Pick(0, 400) {
+		if u.Family == "proggen" && len(pg) < ctx.Pick(0, 1000) {
 			pg = append(pg, u)
 		}
 	}
